@@ -30,6 +30,20 @@ type faultPlan struct {
 	actionOrd  int
 	engineOrd  int
 	injected   map[string]int
+	// lostReply: the failing call reaches the real backend and only its reply is lost
+	// (per planned failure, drawn with the plan); lastLost is what decide() just chose
+	lostAction map[int]bool
+	lostEngine bool
+	lastLost   bool
+}
+
+func (p *faultPlan) after(ord int, kind string) bool {
+	p.mu.Lock()
+	defer p.mu.Unlock()
+	if p.lastLost {
+		p.injected["lost-reply:"+kind]++
+	}
+	return p.lastLost
 }
 
 func (p *faultPlan) decide(ord int, kind string, gs *pokerface.GameState) bool {
@@ -41,6 +55,7 @@ func (p *faultPlan) decide(ord int, kind string, gs *pokerface.GameState) bool {
 		if fail {
 			p.engineFail = -1
 			p.injected[kind]++
+			p.lastLost = false // a hand whose creation is lost half way cannot be judged
 		}
 		return fail
 	}
@@ -48,6 +63,7 @@ func (p *faultPlan) decide(ord int, kind string, gs *pokerface.GameState) bool {
 		if n := p.actionFail[p.actionOrd]; n > 0 {
 			p.actionFail[p.actionOrd] = n - 1
 			p.injected[kind]++
+			p.lastLost = p.lostAction[p.actionOrd]
 			return true
 		}
 		p.actionOrd++
@@ -58,6 +74,7 @@ func (p *faultPlan) decide(ord int, kind string, gs *pokerface.GameState) bool {
 	if fail {
 		p.engineFail = -1
 		p.injected[kind]++
+		p.lastLost = p.lostEngine
 	}
 	return fail
 }
@@ -128,17 +145,24 @@ func c13Body(c *run.Ctx) {
 	}
 	o.Prepare = func(s *sim.Sim) {
 		s.BE.FaultFn = plan.decide
+		s.BE.FaultAfter = plan.after
 	}
 	engineFailPlanned := false
 	o.BeforeHand = func(s *sim.Sim, n int) bool {
 		plan.mu.Lock()
 		plan.actionFail = map[int]int{}
+		plan.lostAction = map[int]bool{}
+		plan.lostEngine = false
 		plan.engineFail = -1
 		failedThisHand = 0
 		k := c.Ch.Int("fault.actions", 0, 4)
 		for i := 0; i < k; i++ {
 			ord := c.Ch.Int("fault.ord", 0, 14)
 			plan.actionFail[ord] = 1 + choose.Weighted(c.Ch, "fault.repeat", []int{5, 2, 1})
+			if choose.Chance(c.Ch, "fault.lostreply", 50) {
+				plan.lostAction[ord] = true
+				s.Label("fault_lost_reply_planned")
+			}
 			if plan.actionFail[ord] > 1 {
 				s.Label(fmt.Sprintf("repeat_fail_%d", plan.actionFail[ord]))
 			}
@@ -146,6 +170,7 @@ func c13Body(c *run.Ctx) {
 		engineFailPlanned = false
 		if choose.Chance(c.Ch, "fault.engine", 12) {
 			plan.engineFail = c.Ch.Int("fault.engine.ord", 0, 12)
+			plan.lostEngine = choose.Chance(c.Ch, "fault.engine.lostreply", 50)
 			engineFailPlanned = true
 		}
 		plan.mu.Unlock()
